@@ -908,3 +908,148 @@ pub fn replay(part: &str, case: &Value) -> Option<CaseResult> {
         _ => None,
     }
 }
+
+// ------------------------------------------------------------------------------------------
+// byte-level entry point for coverage-guided fuzzing (fuzz/fuzz_targets/c04_sequence.rs)
+
+struct Bytes<'a> {
+    d: &'a [u8],
+    i: usize,
+}
+
+impl<'a> Bytes<'a> {
+    fn u8(&mut self) -> u8 {
+        let v = self.d.get(self.i).copied().unwrap_or(0);
+        self.i += 1;
+        v
+    }
+    fn u16(&mut self) -> u16 {
+        u16::from_be_bytes([self.u8(), self.u8()])
+    }
+    fn u64(&mut self) -> u64 {
+        let mut v = 0u64;
+        for _ in 0..8 {
+            v = (v << 8) | self.u8() as u64;
+        }
+        v
+    }
+    fn take(&mut self, n: usize) -> Vec<u8> {
+        let end = (self.i + n).min(self.d.len());
+        let v = self.d.get(self.i.min(self.d.len())..end).map(|s| s.to_vec()).unwrap_or_default();
+        self.i += n;
+        v
+    }
+    fn left(&self) -> usize {
+        self.d.len().saturating_sub(self.i)
+    }
+}
+
+fn field_edit_from(b: &mut Bytes) -> FieldEdit {
+    let tag = b.u8() % 28;
+    let v = b.u64();
+    match tag {
+        0 => FieldEdit::HdrLen(v as i8),
+        1 => FieldEdit::XorByte0(v as u8),
+        2 => FieldEdit::XorByte1(v as u8),
+        3 => FieldEdit::Cp(v as u8),
+        4 => FieldEdit::Sbn(v as u32),
+        5 => FieldEdit::Esi(v as u32),
+        6 => FieldEdit::Sbl(v as u16),
+        7 => FieldEdit::TransferLen(v & 0xFFFF_FFFF_FFFF),
+        8 => FieldEdit::E(v as u16),
+        9 => FieldEdit::B(v as u32),
+        10 => FieldEdit::MaxN(v as u32),
+        11 => FieldEdit::Z(v as u16),
+        12 => FieldEdit::N(v as u16),
+        13 => FieldEdit::Al(v as u8),
+        14 => FieldEdit::M(v as u8),
+        15 => FieldEdit::InstanceId(v as u32),
+        16 => FieldEdit::FdtVersion(v as u8),
+        17 => FieldEdit::Cenc(v as u8),
+        18 => FieldEdit::TimeUse(v as u16),
+        19 => FieldEdit::Hel(v as u8, (v >> 8) as u8),
+        20 => FieldEdit::Het(v as u8, (v >> 8) as u8),
+        21 => FieldEdit::DropExt(v as u8),
+        22 => FieldEdit::DupExt(v as u8),
+        23 => FieldEdit::CloseObject(v & 1 == 1),
+        24 => FieldEdit::CloseSession(v & 1 == 1),
+        25 => FieldEdit::Toi(v),
+        26 => FieldEdit::Tsi(v),
+        _ => FieldEdit::PayloadLen(v as u16),
+    }
+}
+
+/// decode fuzzer bytes into a mutation sequence over a corpus session
+pub fn seq_case_from_bytes(data: &[u8]) -> SeqCase {
+    let mut b = Bytes { d: data, i: 0 };
+    let session = b.u16() as usize % corpus::CORPUS_TOTAL;
+    let cache = [4usize << 10, 16 << 10, 64 << 10, 1 << 20][(b.u8() % 4) as usize];
+    let mut muts = vec![];
+    while b.left() > 0 && muts.len() < 8 {
+        let tag = b.u8() % 12;
+        let m = match tag {
+            0 => Mut::Flip { p: b.u16(), bit: b.u16() },
+            1 => Mut::SetByte { p: b.u16(), off: b.u16(), val: b.u8() },
+            2 => Mut::Truncate { p: b.u16(), keep: b.u16() },
+            3 => Mut::Extend { p: b.u16(), n: b.u8(), fill: b.u8() },
+            4 => Mut::Splice { a: b.u16(), b: b.u16(), at: b.u16() },
+            5 => Mut::Dup { p: b.u16(), to: b.u16() },
+            6 => Mut::Swap { a: b.u16(), b: b.u16() },
+            7 => Mut::Drop { p: b.u16() },
+            8 | 9 => Mut::Field { p: b.u16(), edit: field_edit_from(&mut b) },
+            10 => {
+                let at = b.u16();
+                let n = b.u8() as usize;
+                Mut::Raw { at, bytes: b.take(n) }
+            }
+            _ => {
+                // a foreign FDT: attribute values are taken from the input as decimal / raw text
+                let at = b.u16();
+                let nattr = (b.u8() % 6) as usize;
+                let names = ["FEC-OTI-FEC-Encoding-ID", "FEC-OTI-Maximum-Source-Block-Length", "FEC-OTI-Encoding-Symbol-Length", "FEC-OTI-Max-Number-of-Encoding-Symbols", "FEC-OTI-Scheme-Specific-Info", "Content-Length", "Transfer-Length", "Content-Encoding", "Content-MD5"];
+                let mut attrs = vec![];
+                for _ in 0..nattr {
+                    let name = names[(b.u8() as usize) % names.len()];
+                    let v = match b.u8() % 4 {
+                        0 => b.u64().to_string(),
+                        1 => (b.u8() as u64).to_string(),
+                        2 => {
+                            use base64::Engine as _;
+                            base64::engine::general_purpose::STANDARD.encode(b.take(4))
+                        }
+                        _ => String::from_utf8_lossy(&b.take(6)).chars().filter(|c| !c.is_control()).collect(),
+                    };
+                    if !attrs.iter().any(|(k, _): &(String, String)| k == name) {
+                        attrs.push((name.to_string(), v));
+                    }
+                }
+                let follow_n = (b.u8() % 4) as usize;
+                let mut follow = vec![];
+                for _ in 0..follow_n {
+                    follow.push((0u8, Scheme::ALL[(b.u8() % 6) as usize], b.u8() & 1 == 1, b.u8() as u32, b.u8() as u32, (b.u8() % 64) as u16, b.u8() & 1 == 1));
+                }
+                Mut::Foreign {
+                    at,
+                    fdt: HostileFdt {
+                        instance_id: b.u16() as u32,
+                        expires: "4000000000".into(),
+                        inst_attrs: vec![],
+                        files: vec![HostileFile { toi: ((b.u8() % 5) + 1).to_string(), location: "file:///f".into(), attrs }],
+                        malform: b.u8() % 9,
+                        malform_at: b.u16(),
+                        many: 0,
+                        e: 1024,
+                        follow,
+                    },
+                }
+            }
+        };
+        muts.push(m);
+    }
+    SeqCase { session, muts, cache }
+}
+
+pub fn run_bytes(data: &[u8]) -> Result<(), String> {
+    let c = seq_case_from_bytes(data);
+    run_seq_case(&c).map(|_| ())
+}
